@@ -264,6 +264,27 @@ _ADDED = {
            "conversion on every path of the TypeConversionExpression case; (X8) the MATLAB conversion wrapper names the class of the target primitive.",
     "C20": " (T7) the map arguments generateImpl receives from the watcher are never mutated by it or by the module functions they are handed to.",
 }
-for _k, _v in _ADDED.items():
-    if _k in PROPS:
-        PROPS[_k]["explanation"] += _v
+_ADDED3 = {
+    "C01": " (TE1) a C++ enum is declared with the underlying type its model declares, which is what WriteEnum/ReadEnum put on the wire.",
+    "C03": " (TE1) see C01.",
+    "C05": " (EV5) in the compatibility serializers an I/O routine that can run while a type change is known is chosen for the change's OLD type; (X11) for every ordered "
+           "pair of integer primitives the range test emitted in front of the static_cast has an upper bound iff max(old) > max(new) and a lower bound iff the old type is "
+           "signed and the new type cannot hold its minimum (the clause is evaluated over that finite domain and compared with arithmetic).",
+    "C08": " (U1) dsl.ToGeneralizedType is applied to an underlying type everywhere the shape of a type is read (no `.Dimensionality.(*dsl.Array)` on an unresolved alias); "
+           "(NP1, extended) dereferences through pointer parameters and through locals that stand for an optional field are covered too.",
+    "C09": " (P0, extended) a pass that follows alias chains runs after the cycle report of topologicalSortTypes and returns at once when errors were recorded; "
+           "(D1) every map a pass looks names up in is filled by an earlier statement on every path; (E6) no comparison of a value with itself.",
+    "C10": " (P10) yaml Decode receives a pointer to a struct, never a pointer to a pointer that a null document leaves nil; (P11) a YAML null is a type only inside a union; "
+           "(L3) derived context literals copy every field of the context they derive from.",
+    "C13": " (Q5b) the spellings accepted for a dimension item agree between the shorthand and the expanded form.",
+    "C15": " (V8) a rewriter callback that keeps a node also keeps rewriting below it (removeComments reaches every comment).",
+    "C19": " (X2, X4, X7: second engine) the binary-expression and conversion cases of each emitter are evaluated over a finite domain — operator x integer/other result type, "
+           "with literal lookup tables, helper functions, loops over literal tables and closures handed along with an operand followed — so the token printed for each operator "
+           "and the conversion wrapper are decided however the case is organised; (X9) first token printed for size(); (X10) every test in the typing of a binary expression is "
+           "invariant under exchanging the operands; (U1) see C08.",
+    "C20": " (T4) the debounce timer is reset only through a drained channel; (T6) the watcher adds every directory it generates from.",
+}
+for _src in (_ADDED, _ADDED3):
+    for _k, _v in _src.items():
+        if _k in PROPS:
+            PROPS[_k]["explanation"] += _v
